@@ -196,9 +196,9 @@ def add_for_loop_no_yield_nodes(bytecode: Bytecode) -> Bytecode:  # noqa: D103
 
 def get_branch_type(opcode: int) -> bool | None:  # noqa: D103
     match opname[opcode]:
-        case "POP_JUMP_IF_TRUE" | "POP_JUMP_IF_NOT_NONE":
+        case "POP_JUMP_IF_TRUE" | "POP_JUMP_IF_NOT_NONE" | "POP_JUMP_IF_NONE":
             return True
-        case "POP_JUMP_IF_FALSE" | "POP_JUMP_IF_NONE" | "FOR_ITER":
+        case "POP_JUMP_IF_FALSE" | "FOR_ITER":
             return False
         case _:
             return None
